@@ -529,3 +529,416 @@ Proof.
     { unfold exec in He. unfold next. destruct (nth_error (thr s) i) as [[|x q]|]; try discriminate. eauto. }
     exists ((i, a) :: tr). split; [econstructor; eauto|]. simpl. congruence.
 Qed.
+
+(* ---------------------------------------------------------------- serial order of requests *)
+
+Lemma sec_body_wl : forall b, sec_body b = true -> wl true b = true.
+Proof.
+  induction b as [|a b IH]; intros H; [discriminate|].
+  destruct a; simpl in H; try discriminate.
+  - destruct b; try discriminate. reflexivity.
+  - rewrite wl_access. rewrite (IH H). reflexivity.
+Qed.
+
+Lemma one_section_well_locked : forall p, one_section p = true -> well_locked p = true.
+Proof.
+  destruct p as [|a r]; intros H; auto.
+  destruct a; simpl in H; try discriminate. unfold well_locked. rewrite wl_lock.
+  rewrite (sec_body_wl _ H). reflexivity.
+Qed.
+
+Lemma forallb_one_section_wl : forall hs, forallb one_section hs = true -> forallb well_locked hs = true.
+Proof.
+  intros hs H. rewrite forallb_forall in *. intros x Hx. apply one_section_well_locked; auto.
+Qed.
+
+Definition proj (i : nat) (tr : list ev) : list step := map snd (filter (fun e => fst e =? i) tr).
+
+Lemma exec_nth : forall s j s1 a r0 i p,
+  nth_error (thr s) j = Some (a :: r0) -> exec s j = Some s1 ->
+  nth_error (thr s) i = Some p ->
+  nth_error (thr s1) i = Some (if i =? j then r0 else p).
+Proof.
+  intros s j s1 a r0 i p Hj He Hi.
+  rewrite (exec_thr _ _ _ _ _ Hj He).
+  assert (Hlt : i < List.length (thr s)) by (apply nth_error_Some; congruence).
+  assert (H : nth_error (upd (thr s) j r0) i = Some (if i =? j then r0 else p)).
+  { rewrite (nth_error_upd _ _ _ _ _ _ Hj). destruct (i =? j); auto. }
+  destruct a; auto.
+  rewrite nth_error_app1; auto. rewrite length_upd; auto.
+Qed.
+
+Lemma run_proj : forall s tr s', run s tr s' -> forall i p,
+  nth_error (thr s) i = Some p ->
+  exists q, nth_error (thr s') i = Some q /\ p = proj i tr ++ q.
+Proof.
+  induction 1 as [s|s j a s1 tr s2 Hn He Hrun IH]; intros i p Hi.
+  - exists p. split; auto.
+  - destruct (next_exec_thread _ _ _ Hn) as [r0 Hr].
+    pose proof (exec_nth _ _ _ _ _ _ _ Hr He Hi) as H1.
+    destruct (IH _ _ H1) as (q & Hq & Hp).
+    exists q. split; auto. unfold proj in *. simpl.
+    destruct (Nat.eqb_spec j i).
+    + subst j. rewrite Nat.eqb_refl in Hp. rewrite Hr in Hi. inv Hi. simpl. f_equal; auto.
+    + replace (i =? j) with false in Hp by (symmetry; apply Nat.eqb_neq; auto). auto.
+Qed.
+
+Lemma finished_nth : forall s i p, finished s = true -> nth_error (thr s) i = Some p -> p = [].
+Proof.
+  intros s i p Hf Hi. unfold finished in Hf.
+  pose proof (forallb_nth _ _ _ _ _ Hf Hi) as H. destruct p; auto; discriminate.
+Qed.
+
+Fixpoint cntp (p : list step) : nat :=
+  match p with
+  | [] => 0
+  | Access :: r => S (cntp r)
+  | Unlock :: _ => 0
+  | _ :: r => cntp r
+  end.
+
+Lemma cnt_proj : forall i tr, cnt i tr = cntp (proj i tr).
+Proof.
+  induction tr as [|[j a] tr IH]; simpl; auto.
+  unfold proj in *. simpl. destruct (j =? i); simpl; auto.
+  destruct a; simpl; auto.
+Qed.
+
+Lemma cntp_sec_body : forall b, sec_body b = true -> cntp b = count_acc b.
+Proof.
+  induction b as [|a b IH]; simpl; intros H; auto.
+  destruct a; try discriminate.
+  - destruct b; try discriminate. reflexivity.
+  - unfold count_acc in *. simpl. f_equal. auto.
+Qed.
+
+Definition tstate (h : bool) (p : list step) : bool := if h then sec_body p else one_section p.
+
+Definition OS (s : st) : Prop :=
+  forall k p, nth_error (thr s) k = Some p -> tstate (held s k) p = true.
+
+Lemma OS_init : forall hs, forallb one_section hs = true -> OS (init hs).
+Proof.
+  intros hs H k p Hk. unfold held; simpl. eapply forallb_nth; eauto.
+Qed.
+
+(* in a system of one-section requests only Lock / Access / Unlock are ever executed *)
+Lemma OS_head : forall s i a r0,
+  OS s -> nth_error (thr s) i = Some (a :: r0) ->
+  (a = Lock /\ held s i = false /\ sec_body r0 = true) \/
+  (a = Access /\ held s i = true /\ sec_body r0 = true) \/
+  (a = Unlock /\ held s i = true /\ r0 = []).
+Proof.
+  intros s i a r0 HOS Hi. specialize (HOS _ _ Hi). unfold tstate in HOS.
+  destruct (held s i); simpl in HOS.
+  - destruct a; try discriminate.
+    + right. right. destruct r0; try discriminate. auto.
+    + right. left. auto.
+  - destruct a; try discriminate. left. auto.
+Qed.
+
+Lemma OS_step : forall s i s1, OS s -> WL s -> exec s i = Some s1 -> OS s1.
+Proof.
+  intros s i s1 HOS HWL He.
+  assert (exists a, next s i = Some a) as [a Hn].
+  { unfold exec in He. unfold next. destruct (nth_error (thr s) i) as [[|x r]|]; try discriminate. eauto. }
+  destruct (next_exec_thread _ _ _ Hn) as [r0 Hr].
+  pose proof (exec_own _ _ _ _ HWL Hn He) as Hown.
+  pose proof (OS_head _ _ _ _ HOS Hr) as Hhead.
+  intros k p Hk.
+  assert (Hlen : List.length (thr s1) = List.length (thr s)).
+  { rewrite (exec_thr _ _ _ _ _ Hr He).
+    destruct Hhead as [(-> & _)|[(-> & _)|(-> & _)]]; apply length_upd. }
+  assert (exists p0, nth_error (thr s) k = Some p0) as [p0 Hp0].
+  { destruct (nth_error (thr s) k) eqn:E; eauto. apply nth_error_None in E.
+    assert (k < List.length (thr s1)) by (apply nth_error_Some; congruence). lia. }
+  pose proof (exec_nth _ _ _ _ _ _ _ Hr He Hp0) as Hk'. rewrite Hk in Hk'. inv Hk'.
+  pose proof (HOS _ _ Hp0) as Hs.
+  unfold held in *.
+  destruct Hhead as [(-> & Hh & Hb)|[(-> & Hh & Hb)|(-> & Hh & Hb)]].
+  - destruct Hown as [Ho Ho']. rewrite Ho' . rewrite Ho in *.
+    destruct (Nat.eqb_spec k i).
+    + subst. rewrite Nat.eqb_refl. exact Hb.
+    + replace (i =? k) with false by (symmetry; apply Nat.eqb_neq; auto). exact Hs.
+  - destruct Hown as [Ho Ho']. rewrite Ho'. rewrite Ho in *.
+    destruct (Nat.eqb_spec k i).
+    + subst. rewrite Nat.eqb_refl. exact Hb.
+    + exact Hs.
+  - destruct Hown as [Ho Ho']. rewrite Ho'. rewrite Ho in *.
+    destruct (Nat.eqb_spec k i).
+    + subst. reflexivity.
+    + replace (i =? k) with false in Hs by (symmetry; apply Nat.eqb_neq; auto). exact Hs.
+Qed.
+
+Definition lockers (tr : list ev) : list nat := map fst (sections tr).
+
+Lemma sec_body_not_lock : forall b, sec_body (Lock :: b) = false.
+Proof. reflexivity. Qed.
+
+(* the critical sections of a complete execution of one-section requests: every request that
+   locks does so exactly once, and its section contains all its accesses *)
+Lemma sections_complete : forall s tr s',
+  run s tr s' -> OS s -> WL s -> finished s' = true ->
+  sections tr = map (fun k => (k, count_acc (nth k (thr s) []))) (lockers tr) /\
+  NoDup (lockers tr) /\
+  (forall k, In k (lockers tr) -> held s k = false /\ exists b, nth_error (thr s) k = Some (Lock :: b)) /\
+  (forall k p, nth_error (thr s) k = Some p -> ~ In k (lockers tr) -> held s k = true \/ p = []).
+Proof.
+  induction 1 as [s|s i a s1 tr s2 Hn He Hrun IH]; intros HOS HWL Hfin.
+  - unfold lockers. simpl. split; [reflexivity|]. split; [constructor|]. split; [intros k []|].
+    intros k p Hk _. right. eapply finished_nth; eauto.
+  - destruct (next_exec_thread _ _ _ Hn) as [r0 Hr].
+    pose proof (exec_own _ _ _ _ HWL Hn He) as Hown.
+    pose proof (OS_head _ _ _ _ HOS Hr) as Hhead.
+    pose proof (OS_step _ _ _ HOS HWL He) as HOS1.
+    pose proof (WL_step _ _ _ HWL He) as HWL1.
+    destruct (IH HOS1 HWL1 Hfin) as (G1 & G2 & G3 & G4).
+    assert (Hi1 : nth_error (thr s1) i = Some r0).
+    { pose proof (exec_nth _ _ _ _ _ _ _ Hr He Hr) as H. rewrite Nat.eqb_refl in H. exact H. }
+    assert (Hother : forall k p, k <> i -> nth_error (thr s) k = Some p -> nth_error (thr s1) k = Some p).
+    { intros k p Hne Hk. pose proof (exec_nth _ _ _ _ _ _ _ Hr He Hk) as H.
+      replace (k =? i) with false in H by (symmetry; apply Nat.eqb_neq; auto). exact H. }
+    assert (Hlen : List.length (thr s1) = List.length (thr s)).
+    { rewrite (exec_thr _ _ _ _ _ Hr He).
+      destruct Hhead as [(-> & _)|[(-> & _)|(-> & _)]]; apply length_upd. }
+    assert (Hother' : forall k p, k <> i -> nth_error (thr s1) k = Some p -> nth_error (thr s) k = Some p).
+    { intros k p Hne Hk.
+      destruct (nth_error (thr s) k) as [p0|] eqn:E.
+      - rewrite (Hother _ _ Hne E) in Hk. exact Hk.
+      - apply nth_error_None in E.
+        assert (k < List.length (thr s1)) by (apply nth_error_Some; congruence). lia. }
+    assert (Hnth : forall k, k <> i -> nth k (thr s1) [] = nth k (thr s) []).
+    { intros k Hne. destruct (nth_error (thr s) k) as [p0|] eqn:E.
+      - rewrite (nth_error_nth _ _ _ E). rewrite (nth_error_nth _ _ _ (Hother _ _ Hne E)). reflexivity.
+      - assert (H : nth_error (thr s1) k = None).
+        { destruct (nth_error (thr s1) k) eqn:E1; auto. rewrite (Hother' _ _ Hne E1) in E. discriminate. }
+        rewrite (nth_overflow _ _ (proj1 (nth_error_None _ _) E)).
+        rewrite (nth_overflow _ _ (proj1 (nth_error_None _ _) H)). reflexivity. }
+    (* in the rest of the run thread i does not lock (again) unless its program starts with Lock
+       and it does not hold the lock *)
+    assert (Hnoti : (forall b, r0 <> Lock :: b) \/ held s1 i = true -> ~ In i (lockers tr)).
+    { intros Hc Hin. destruct (G3 _ Hin) as (Hh & b & Hb). rewrite Hi1 in Hb. inv Hb.
+      destruct Hc as [Hc|Hc]; [eapply Hc; eauto | congruence]. }
+    assert (Hmap : ~ In i (lockers tr) ->
+                   map (fun k => (k, count_acc (nth k (thr s1) []))) (lockers tr) =
+                   map (fun k => (k, count_acc (nth k (thr s) []))) (lockers tr)).
+    { intros Hni. apply map_ext_in. intros k Hk. f_equal. f_equal. apply Hnth. intro; subst; auto. }
+    assert (Hthr3 : ~ In i (lockers tr) -> forall k, In k (lockers tr) ->
+                    exists b, nth_error (thr s) k = Some (Lock :: b)).
+    { intros Hni k Hk. destruct (G3 _ Hk) as (_ & b & Hb'). exists b. apply Hother'; auto. intro; subst; auto. }
+    unfold held in *.
+    destruct Hhead as [(-> & Hh & Hb)|[(-> & Hh & Hb)|(-> & Hh & Hb)]].
+    + (* Lock *)
+      destruct Hown as [Ho Ho']. rewrite Ho' in *. rewrite Ho in *.
+      assert (Hni : ~ In i (lockers tr)) by (apply Hnoti; right; apply Nat.eqb_refl).
+      change (sections ((i, Lock) :: tr)) with ((i, cnt i tr) :: sections tr).
+      unfold lockers in *.
+      change (map fst ((i, cnt i tr) :: sections tr)) with (i :: map fst (sections tr)).
+      split; [|split; [|split]].
+      * simpl. f_equal.
+        -- f_equal. rewrite (nth_error_nth _ _ _ Hr).
+           destruct (run_proj _ _ _ Hrun _ _ Hi1) as (q & Hq & Hp).
+           rewrite (finished_nth _ _ _ Hfin Hq), app_nil_r in Hp.
+           rewrite cnt_proj, <- Hp. rewrite (cntp_sec_body _ Hb).
+           unfold count_acc. reflexivity.
+        -- rewrite G1 at 1. apply Hmap; auto.
+      * constructor; auto.
+      * intros k [Hk|Hk].
+        -- subst. split; [reflexivity|eauto].
+        -- split; [reflexivity|]. apply Hthr3; auto.
+      * intros k p Hk Hnin.
+        assert (k <> i) by (intro; subst; apply Hnin; left; auto).
+        destruct (G4 _ _ (Hother _ _ H Hk)) as [Hx|Hx]; auto.
+        { intro Hc. apply Hnin. right. auto. }
+        replace (i =? k) with false in Hx by (symmetry; apply Nat.eqb_neq; auto). discriminate.
+    + (* Access *)
+      destruct Hown as [Ho Ho']. rewrite Ho' in *. rewrite Ho in *.
+      assert (Hni : ~ In i (lockers tr)) by (apply Hnoti; right; apply Nat.eqb_refl).
+      change (sections ((i, Access) :: tr)) with (sections tr).
+      split; [|split; [|split]]; auto.
+      * rewrite G1 at 1. apply Hmap; auto.
+      * intros k Hk. split; [apply (G3 _ Hk)|apply Hthr3; auto].
+      * intros k p Hk Hnin. destruct (Nat.eq_dec k i) as [->|n].
+        -- left. apply Nat.eqb_refl.
+        -- destruct (G4 _ _ (Hother _ _ n Hk) Hnin); auto.
+    + (* Unlock *)
+      destruct Hown as [Ho Ho']. rewrite Ho' in *. rewrite Ho in *. subst r0.
+      assert (Hni : ~ In i (lockers tr)) by (apply Hnoti; left; intros b; discriminate).
+      change (sections ((i, Unlock) :: tr)) with (sections tr).
+      split; [|split; [|split]]; auto.
+      * rewrite G1 at 1. apply Hmap; auto.
+      * intros k Hk. split; [|apply Hthr3; auto].
+        apply Nat.eqb_neq. intro; subst; auto.
+      * intros k p Hk Hnin. destruct (Nat.eq_dec k i) as [->|n].
+        -- left. apply Nat.eqb_refl.
+        -- destruct (G4 _ _ (Hother _ _ n Hk) Hnin) as [Hx|Hx]; auto. discriminate.
+Qed.
+
+(* --- the serial schedule is an execution *)
+
+Lemma run_app : forall s t1 s1, run s t1 s1 -> forall t2 s2, run s1 t2 s2 -> run s (t1 ++ t2) s2.
+Proof. induction 1; simpl; intros; auto. econstructor; eauto. Qed.
+
+Lemma upd_upd : forall A (l : list A) i x y, upd (upd l i x) i y = upd l i y.
+Proof. induction l; destruct i; simpl; intros; auto. f_equal. auto. Qed.
+
+Lemma run_body : forall i b s,
+  own s = Some i -> nth_error (thr s) i = Some b -> sec_body b = true ->
+  exists s2, run s (map (fun a => (i, a)) b) s2 /\ own s2 = None /\ thr s2 = upd (thr s) i [].
+Proof.
+  induction b as [|a b IH]; simpl; intros s Ho Hi Hb; try discriminate.
+  destruct a; try discriminate.
+  - destruct b; try discriminate.
+    eexists. split; [|split].
+    + econstructor; [| |constructor].
+      * unfold next. rewrite Hi. reflexivity.
+      * unfold exec. rewrite Hi, Ho, Nat.eqb_refl. reflexivity.
+    + reflexivity.
+    + reflexivity.
+  - set (s1 := mkst (upd (thr s) i b) (own s) (ch s)).
+    destruct (IH s1) as (s2 & Hr & Ho2 & Ht2); auto.
+    + simpl. eapply nth_error_upd_eq; eauto.
+    + exists s2. split; [|split]; auto.
+      * econstructor; eauto.
+        -- unfold next. rewrite Hi. reflexivity.
+        -- unfold exec. rewrite Hi. reflexivity.
+      * rewrite Ht2. simpl. apply upd_upd.
+Qed.
+
+Lemma run_thread : forall i b s,
+  own s = None -> nth_error (thr s) i = Some (Lock :: b) -> sec_body b = true ->
+  exists s2, run s (map (fun a => (i, a)) (Lock :: b)) s2 /\ own s2 = None /\ thr s2 = upd (thr s) i [].
+Proof.
+  intros i b s Ho Hi Hb.
+  set (s1 := mkst (upd (thr s) i b) (Some i) (ch s)).
+  destruct (run_body i b s1) as (s2 & Hr & Ho2 & Ht2); auto.
+  - simpl. eapply nth_error_upd_eq; eauto.
+  - exists s2. split; [|split]; auto.
+    + simpl. econstructor; eauto.
+      * unfold next. rewrite Hi. reflexivity.
+      * unfold exec. rewrite Hi, Ho. reflexivity.
+    + rewrite Ht2. simpl. apply upd_upd.
+Qed.
+
+Lemma serial_run : forall pi s,
+  own s = None -> NoDup pi ->
+  (forall k, In k pi -> exists b, nth_error (thr s) k = Some (Lock :: b) /\ sec_body b = true) ->
+  exists s2, run s (flat_map (fun i => map (fun a => (i, a)) (nth i (thr s) [])) pi) s2 /\
+             own s2 = None /\
+             (forall k, ~ In k pi -> nth_error (thr s2) k = nth_error (thr s) k) /\
+             (forall k, In k pi -> nth_error (thr s2) k = Some []).
+Proof.
+  induction pi as [|i pi IH]; intros s Ho Hnd Hall.
+  - exists s. simpl. repeat split; auto; try constructor. contradiction.
+  - inversion Hnd as [|? ? Hni Hnd']; subst.
+    destruct (Hall i (or_introl eq_refl)) as (b & Hi & Hb).
+    destruct (run_thread _ _ _ Ho Hi Hb) as (s1 & Hr1 & Ho1 & Ht1).
+    assert (Hsame : forall k, k <> i -> nth_error (thr s1) k = nth_error (thr s) k).
+    { intros k Hne. rewrite Ht1. apply nth_error_upd_neq; auto. }
+    destruct (IH s1 Ho1 Hnd') as (s2 & Hr2 & Ho2 & Hout & Hin).
+    { intros k Hk. rewrite Hsame; [apply Hall; right; auto | intro; subst; auto]. }
+    exists s2. repeat split; auto.
+    + simpl. rewrite (nth_error_nth _ _ _ Hi).
+      eapply run_app; eauto.
+      replace (flat_map (fun i0 => map (fun a => (i0, a)) (nth i0 (thr s) [])) pi)
+        with (flat_map (fun i0 => map (fun a => (i0, a)) (nth i0 (thr s1) [])) pi); auto.
+      rewrite !flat_map_concat_map. f_equal. apply map_ext_in. intros k Hk.
+      f_equal. assert (k <> i) by (intro; subst; auto).
+      pose proof (Hsame _ H) as E.
+      destruct (nth_error (thr s) k) as [p|] eqn:E1.
+      * rewrite (nth_error_nth _ _ _ E1), (nth_error_nth _ _ _ E). reflexivity.
+      * rewrite (nth_overflow _ _ (proj1 (nth_error_None _ _) E1)).
+        rewrite (nth_overflow _ _ (proj1 (nth_error_None _ _) E)). reflexivity.
+    + intros k Hk. simpl in Hk.
+      rewrite Hout by (intro; apply Hk; auto). apply Hsame. intro; subst; apply Hk; auto.
+    + intros k [Hk|Hk].
+      * subst. rewrite Hout; auto. rewrite Ht1. eapply nth_error_upd_eq; eauto.
+      * apply Hin; auto.
+Qed.
+
+Lemma accs_app : forall t1 t2, accs (t1 ++ t2) = accs t1 ++ accs t2.
+Proof. intros. unfold accs. rewrite filter_app, map_app. reflexivity. Qed.
+
+Lemma accs_thread : forall i p, accs (map (fun a => (i, a)) p) = repeat i (count_acc p).
+Proof.
+  induction p as [|a p IH]; simpl; auto.
+  rewrite accs_cons. unfold count_acc in *. destruct a; simpl; auto. f_equal. auto.
+Qed.
+
+Lemma accs_serial_trace : forall hs pi,
+  accs (serial_trace hs pi) = serial_accs (map (fun k => (k, count_acc (nth k hs []))) pi).
+Proof.
+  induction pi as [|i pi IH]; auto.
+  unfold serial_trace in *. cbn [flat_map map].
+  rewrite accs_app, accs_thread, serial_accs_cons. f_equal. auto.
+Qed.
+
+Lemma forallb_null_intro : forall (l : list (list step)),
+  (forall k p, nth_error l k = Some p -> p = []) -> forallb null l = true.
+Proof.
+  induction l as [|x l IH]; simpl; intros H; auto.
+  rewrite (H 0 x eq_refl). simpl. apply IH. intros k p Hk. apply (H (S k)). auto.
+Qed.
+
+(* every complete execution of a set of one-section requests has the same global access
+   order as the serial schedule that runs the requests one at a time, to completion, in
+   lock-acquisition order -- and that serial schedule is itself an execution *)
+Lemma well_locked_serializable : forall hs tr s,
+  forallb one_section hs = true -> run (init hs) tr s -> finished s = true ->
+  exists pi s2,
+    NoDup pi /\ (forall k, In k pi -> k < List.length hs) /\
+    run (init hs) (serial_trace hs pi) s2 /\ finished s2 = true /\
+    accs (serial_trace hs pi) = accs tr.
+Proof.
+  intros hs tr s Hone Hrun Hfin.
+  pose proof (forallb_one_section_wl _ Hone) as Hwl.
+  destruct (sections_complete _ _ _ Hrun (OS_init _ Hone) (WL_init _ Hwl) Hfin) as (G1 & G2 & G3 & G4).
+  exists (lockers tr).
+  destruct (serial_run (lockers tr) (init hs)) as (s2 & Hr2 & Ho2 & Hout & Hin); auto.
+  { intros k Hk. destruct (G3 _ Hk) as (_ & b & Hb). exists b. split; auto.
+    pose proof (OS_init _ Hone _ _ Hb) as H. exact H. }
+  exists s2. repeat split; auto.
+  - intros k Hk. destruct (G3 _ Hk) as (_ & b & Hb). simpl in Hb. apply nth_error_Some. congruence.
+  - unfold finished. apply forallb_null_intro. intros k p Hk.
+    destruct (in_dec Nat.eq_dec k (lockers tr)) as [Hi|Hni].
+    + rewrite (Hin _ Hi) in Hk. congruence.
+    + rewrite (Hout _ Hni) in Hk. destruct (G4 _ _ Hk Hni) as [Hx|Hx]; auto. discriminate.
+  - rewrite accs_serial_trace. rewrite (sections_serial _ _ _ Hwl Hrun). rewrite G1. reflexivity.
+Qed.
+
+(* ---------------------------------------------------------------- rendezvous, packaged *)
+
+Lemma fetch_visible : forall f r n tr s k rest,
+  creator_pre (fetch_system f r 0) CNone = true -> reader_ok r = true ->
+  run (init [fetch_system f r n]) tr s ->
+  nth_error (thr s) (S (S k)) = Some (Access :: rest) ->
+  ch s = CClosed /\ nth_error (thr s) 1 = Some [].
+Proof.
+  intros f r n tr s k rest Hf Hr Hrun. apply fetch_visible_state.
+  eapply binv_run; eauto. apply binv_init; auto.
+Qed.
+
+Lemma fetch_wait : forall f r n tr s k rest,
+  creator_pre (fetch_system f r 0) CNone = true -> reader_ok r = true ->
+  run (init [fetch_system f r n]) tr s ->
+  nth_error (thr s) (S (S k)) = Some (Wait :: rest) ->
+  (ch s = COpen /\ exec s (S (S k)) = None) \/ (ch s = CClosed /\ nth_error (thr s) 1 = Some []).
+Proof.
+  intros f r n tr s k rest Hf Hr Hrun. apply fetch_wait_state.
+  eapply binv_run; eauto. apply binv_init; auto.
+Qed.
+
+Lemma fetch_no_deadlock : forall f r n tr s,
+  creator_pre (fetch_system f r 0) CNone = true -> reader_ok r = true ->
+  run (init [fetch_system f r n]) tr s ->
+  finished s = false -> exists i s', exec s i = Some s'.
+Proof.
+  intros f r n tr s Hf Hr Hrun. apply fetch_progress_state.
+  eapply binv_run; eauto. apply binv_init; auto.
+Qed.
+
+Lemma fetch_refuted :
+  exists sched s,
+    run_sched (init [fetch_system [Spawn [ChanMake; Access; Signal]] [Wait; Access] 1]) sched = Some s /\
+    nth_error (thr s) 2 = Some [Access] /\ nth_error (thr s) 1 = Some [ChanMake; Access; Signal].
+Proof. exists [0; 0; 2]. eexists. repeat split. Qed.
